@@ -133,16 +133,16 @@ KVFor(f, n, i) ==
     IF f = "jar"
     THEN CASE n <= 2 -> KV9
            [] n = 3 -> (IF Tier = 0 THEN {"inn", "an1", "locP", "innP", "locA"} ELSE KV9)
-           [] n = 4 -> (IF Tier = 0 THEN {"inn", "an1", "locP"} ELSE {"inn", "innA", "an1", "locP", "innP"})
+           [] n = 4 -> (IF Tier = 0 THEN {"inn", "an1", "locP"} ELSE {"inn", "innA", "an1", "locP", "innP", "locA"})
     ELSE CASE n <= 2 -> {"inn", "innA", "an1", "locP"}
-           [] n = 3 -> {"innA", "locP"}
-           [] n = 4 -> {"inn"}
+           [] n = 3 -> (IF Tier = 0 THEN {"innA", "locP"} ELSE {"inn", "innA", "an1", "locP"})
+           [] n = 4 -> (IF Tier = 0 THEN {"inn"} ELSE {"inn", "an1"})
 PrFor(f, n, i) == IF f = "jar" THEN BOOLEAN ELSE {TRUE}
 EnFor(f, n, i) ==
     IF n <= 3 THEN {0, 9} \cup 1..(i - 1)
     ELSE CASE i = 1 -> {0, 9} [] i = 2 -> {1} [] i = 3 -> {2, 0} [] i = 4 -> {3, 1}
-(* in the larger tables of the quick tier an absent class comes with one kind only *)
-Allowed(f, n, p) == (f = "jar" /\ n >= 3 /\ Tier = 0 /\ ~p.pr) => p.kv = "inn"
+(* in the larger tables an absent class comes with one kind only (its nest is skipped before the kind is looked at) *)
+Allowed(f, n, p) == (f = "jar" /\ n >= 3 /\ ~p.pr) => p.kv = "inn"
 
 Start ==
     /\ phase = "start"
@@ -295,7 +295,8 @@ EmitRead ==
     LET text == ReadText(extra)
         r == ReadOp(text)
     IN PrintT(ToJson([op |-> "read", text |-> text, tag |-> [ok |-> r.ok, lines |-> Len(Lines(text)), dup |-> r.ok /\ Len(r.v) < Len(Lines(text))],
-                      exp |-> IF r.ok THEN [st |-> "ok", nests |-> ByClass(r.v)] ELSE [st |-> "err"]]))
+                      exp |-> IF \E i \in 1..Len(Lines(text)) : OnlyDescIllFormed(Lines(text)[i]) THEN Weak
+                              ELSE IF r.ok THEN [st |-> "ok", nests |-> ByClass(r.v)] ELSE [st |-> "err"]]))
 Emit ==
     phase = "case" =>
         CASE fam = "jar" -> EmitJar [] fam = "map" -> EmitMap [] fam = "tr" -> EmitTr [] fam = "read" -> EmitRead
